@@ -93,5 +93,5 @@ def main(tier, replay=None):
         PROP, tier, gen_cases(tier), run_case,
         "one trace per pair of viewpoints (shared inputs / shared outputs / same interface / disjoint / clashing), planted "
         "duplicated, scaled and weakened rows across the two; two events: both operand orders; non-trivial = merge returned",
-        replay=replay, nontrivial=lambda ev: ev["exc"] == "none",
+        replay=replay, design=("Alg_merge_quick.cfg", "Alg_merge.cfg"), nontrivial=lambda ev: ev["exc"] == "none",
     )
